@@ -486,7 +486,7 @@ Proof.
   unfold setp. apply wf_replace; try exact W; cbn [ps_heap ps_handle].
   - exact W1.
   - exact A1.
-  - intros hd0 o d E0 I. apply A1. rewrite H in E0. injection E0 as <-. exact (wf_handles _ W p hd o d H I).
+  - intros hd0 o d E0 I. apply A1. assert (X : hd0 = hd) by (cbv zeta in *; congruence). subst hd0. exact (wf_handles _ W p hd o d H I).
   - apply W.
   - auto.
 Qed.
